@@ -66,6 +66,11 @@ pub fn authorize_once(case: &Value, pool: &[String], keys: &Keys, token: &Biscui
     out["fact_count"] = json!(az.fact_count());
     out["queries"] = run_queries(case, pool, keys, &mut az);
     out["query_rows"] = run_query_rows(case, pool, keys, &mut az);
+    // asking again changes nothing: the second answer of the same object is the first one (also after a failed run)
+    let again = authz_outcome_j(&az.authorize());
+    if ["r", "p", "pk", "failed", "kind"].iter().any(|k| again.get(*k) != out.get(*k)) {
+        out["again_differs"] = again;
+    }
     out
 }
 
